@@ -114,6 +114,9 @@ class TDNotify(Contract):
 
 
 class DictMutator(Contract):
+    # the concrete oracle asked when the function leaves the verifier's subset (rewritten loop, new construct): random
+    # operations against the builtin model on validated items, every clause of the statement evaluated on the real code
+    undecided_probe = dict(harness="containers", family="dict_probe", trials=4000)
     path = PATH
     properties = ("C06", "C04", "C19")
     cls = "TraitDict"
